@@ -165,14 +165,17 @@ using O = nop::Optional<TA>; using OI = nop::Optional<int>; using En = nop::Entr
 struct OM { bool has = false; int v = 0; bool known = true; };
 struct RM { int st = 0; E e = E::None; int v = 0; bool known = true; };  // st: 0 empty, 1 error, 2 value
 enum OOp { O_ASSIGN_RV, O_ASSIGN_LV, O_CLEAR, O_COPY_ASSIGN, O_MOVE_ASSIGN, O_COPY_CTOR, O_MOVE_CTOR, O_RECREATE_VALUE, O_RECREATE_INPLACE, O_TO_ENTRY, O_FROM_ENTRY, O_FROM_OPT_INT, O_MOVE_FROM_OPT_INT, O_TAKE, O_ENTRY_MOVE_TO,
+           O_ENTRY_MOVE_ENTRY, O_ENTRY_COPY_ENTRY, O_TABLE_MOVE,
            R_ASSIGN_RV, R_ASSIGN_LV, R_ASSIGN_ERR, R_CLEAR, R_COPY_ASSIGN, R_MOVE_ASSIGN, R_COPY_CTOR, R_MOVE_CTOR, R_RECREATE_VALUE, R_RECREATE_ERR, R_TAKE, S_ASSIGN_ERR, S_ASSIGN_VALUE, S_MOVE_TO_R, O_NOPS };
 static const char* const kONames[] = {"opt = T&&", "opt = const T&", "opt.clear()", "opt copy-assign", "opt move-assign", "opt copy-construct", "opt move-construct", "opt destroy+construct(value)", "opt destroy+construct(InPlace)",
                                       "entry = opt", "opt = entry", "opt = Optional<int>", "opt = move(Optional<int>)", "opt.take()", "opt = move(entry)",
+                                      "entry2 = move(entry)", "entry2 = entry", "table-of-entries move-assign",
                                       "res = T&&", "res = const T&", "res = error", "res.clear()", "res copy-assign", "res move-assign", "res copy-construct", "res move-construct", "res destroy+construct(value)", "res destroy+construct(error)", "res.take()",
                                       "status = error", "status = value", "res = move(status-as-result)"};
 struct OptRun {
   static const int N = 2;
-  O* o[N]; OM om[N]; En ent; OM em; R* r[N]; RM rm[N]; ST st; RM sm; OI oi; bool oi_has = false; int oi_v = 0;
+  O* o[N]; OM om[N]; En ent; OM em; En ent2; OM em2; R* r[N]; RM rm[N]; ST st; RM sm; OI oi; bool oi_has = false; int oi_v = 0;
+  struct Tab { nop::Entry<TA, 1> a; nop::Entry<TA, 2> b; };   // a struct of entries, as a table is
   std::string err;
   void fail(const std::string& key, const std::string& what) { if (err.empty()) err = key + "|" + what; }
   OptRun() { for (int i = 0; i < N; i++) { o[i] = new O(); r[i] = new R(); } }
@@ -190,7 +193,7 @@ struct OptRun {
     if (m.st == 2) { x.get().chk(); if (m.known && x.get().v != m.v) fail("model:Result.value", fmt("%s: value %d, model %d", who, x.get().v, m.v)); }
   }
   void audit() {
-    size_t exp = 0; for (int i = 0; i < N; i++) { exp += om[i].has; exp += (rm[i].st == 2); } exp += em.has; exp += (sm.st == 2);
+    size_t exp = 0; for (int i = 0; i < N; i++) { exp += om[i].has; exp += (rm[i].st == 2); } exp += em.has; exp += em2.has; exp += (sm.st == 2);
     if (g_live.size() != exp) fail("registry:Optional/Result.live-count", fmt("%zu tracked values alive, the objects hold %zu", g_live.size(), exp));
     if (!g_fault.empty()) { fail(std::string("registry:Optional/Result:") + g_fault, g_fault); g_fault.clear(); }
   }
@@ -209,6 +212,11 @@ struct OptRun {
       case O_TO_ENTRY: ent = *o[b]; em = om[b]; break;
       case O_FROM_ENTRY: *o[a] = ent; om[a] = em; break;
       case O_ENTRY_MOVE_TO: *o[a] = std::move(ent); om[a] = em; em = {false, 0, true}; break;
+      case O_ENTRY_MOVE_ENTRY: ent2 = std::move(ent); em2 = em; em = {false, 0, true}; break;          // moving from an Entry by assignment leaves it empty
+      case O_ENTRY_COPY_ENTRY: ent2 = ent; em2 = em; break;
+      case O_TABLE_MOVE: { Tab t1, t2; t1.a = TA(x); t2.b = TA(x + 1); t2.a = TA(x + 2); t2 = std::move(t1);
+        if (t2.a.empty() || t2.a.get().v != x || !t2.b.empty()) fail("model:Entry.table-move-assign", "move-assigning a struct of entries did not transfer the entries");
+        if (!t1.a.empty()) fail("model:Entry.moved-from-by-assignment", "an Entry moved from by assignment (as part of its table) is not empty"); } break;
       case O_FROM_OPT_INT: { OI s; if (x & 1) s = x; *o[a] = s; om[a] = (x & 1) ? OM{true, x, true} : OM{false, 0, true}; } break;
       case O_MOVE_FROM_OPT_INT: { OI s; if (x & 1) s = x; *o[a] = std::move(s); om[a] = (x & 1) ? OM{true, x, true} : OM{false, 0, true}; if (!s.empty()) fail("model:Optional.moved-from-by-assignment", "an Optional<int> moved from by (converting) assignment is not empty"); } break;
       case O_TAKE: if (om[a].has) { TA t = o[a]->take(); (void)t; om[a].known = false; } break;
@@ -228,7 +236,7 @@ struct OptRun {
       case S_MOVE_TO_R: { ST t2(std::move(st)); if (sm.st == 2) { t2.get().chk(); } sm = {0, E::None, 0, true}; if (st.has_value() || st.has_error()) fail("model:Status.moved-from", "a Status moved from is not empty"); } break;
     }
     for (int i = 0; i < N; i++) { chkO(*o[i], om[i], "optional"); chkR(*r[i], rm[i], "result"); }
-    chkO(ent, em, "entry");
+    chkO(ent, em, "entry"); chkO(ent2, em2, "entry2");
     { // Status: same state model; error identity checked through has_error/has_value only
       if (st.has_value() != (sm.st == 2) || st.has_error() != (sm.st == 1) || (bool)st != (sm.st == 2)) fail("model:Status.state", "Status<T> has_value/has_error/bool disagree with the model");
       if (sm.st == 2) st.get().chk();
@@ -248,6 +256,7 @@ static std::vector<OpRec> opt_alphabet() {
     for (int x : {1, 2}) { al.push_back({O_FROM_OPT_INT, a, a, x, -1}); al.push_back({O_MOVE_FROM_OPT_INT, a, a, x, -1}); }
     for (int x : {0, 1, 2}) { al.push_back({R_ASSIGN_ERR, a, a, x, -1}); al.push_back({R_RECREATE_ERR, a, a, x, -1}); }
   }
+  al.push_back({O_ENTRY_MOVE_ENTRY, 0, 0, 0, -1}); al.push_back({O_ENTRY_COPY_ENTRY, 0, 0, 0, -1}); al.push_back({O_TABLE_MOVE, 0, 0, 9, -1});
   for (int x : {0, 1, 2}) al.push_back({S_ASSIGN_ERR, 0, 0, x, -1});
   al.push_back({S_ASSIGN_VALUE, 0, 0, 3, -1}); al.push_back({S_MOVE_TO_R, 0, 0, 0, -1});
   return al;
